@@ -380,11 +380,35 @@ class CStr(SymVal):
             return CStr(o.codes + self.codes) if reflected else CStr(self.codes + o.codes)
         raise Undecided("string operator")
 
+    def _ascii_only(self, ctx, what):
+        """str.lower / str.upper are modelled for ASCII text only (S2).  Outside ASCII the real methods map some
+        characters INTO the ASCII letters (U+212A KELVIN SIGN -> 'k', U+017F -> 'S') and may change the length
+        (U+0130, U+00DF): a path on which a character may be >= 128 is outside the model."""
+        for c in self.codes:
+            if isinstance(c, int):
+                non = c >= 128
+            elif type(c).__name__ == "LB":
+                if c.origin is not None and all(ord(ch) < 128 for ch in c.origin[0]):
+                    continue
+                if not c.exact:
+                    raise Undecided(f"str.{what} on a character that is not known to be a code point")
+                non = z3.UGE(c.v, 128)
+            else:
+                non = c >= 128
+            if ctx.branch(non):
+                raise Undecided(f"str.{what} on text that may contain non-ASCII characters (case mapping outside ASCII is not modelled)")
+
     def sym_getattr(self, ctx, name):
         if name == "lower":
-            return lambda: CStr([_shift_case(c, 65, 90, 32) for c in self.codes])
+            def lower():
+                self._ascii_only(ctx, "lower")
+                return CStr([_shift_case(c, 65, 90, 32) for c in self.codes])
+            return lower
         if name == "upper":
-            return lambda: CStr([_shift_case(c, 97, 122, -32) for c in self.codes])
+            def upper():
+                self._ascii_only(ctx, "upper")
+                return CStr([_shift_case(c, 97, 122, -32) for c in self.codes])
+            return upper
         if name == "rfind":
             def rfind(sub, *rest):
                 if rest or not isinstance(sub, str) or len(sub) != 1:
